@@ -178,6 +178,17 @@ def run(R):
     R.check(p is None, "C11.DEBUG-SWITCH", ts.qualname, R.site(ts),
             "the thread-local slot is replaced only when it still holds this batch",
             "the slot can be replaced although it holds another (newer) batch: that batch and its items are lost", tcfg.fmt_path(p) if p else None)
+    # ... and whenever it does hold this batch it is replaced (also for an empty batch)
+    hs = []
+    for g in kit.guard_edges_exist(tcfg, holds_self):
+        hs += [e.dst for e in tcfg.out_edges(g.id, N) if e.label == holds_self(g)]
+    p = tcfg.find_path(hs, [tcfg.exit], N, cut_nodes=writes) if hs else "no test"
+    first = [n for n in tcfg.nodes if n.kind == "test"]
+    pre = tcfg.find_path([tcfg.entry], [tcfg.exit], N, cut_nodes=kit.guard_edges_exist(tcfg, holds_self))
+    R.check(p is None and pre is None, "C11.DEBUG-SWITCH", ts.qualname + ":always", R.site(ts),
+            "whenever the slot holds this batch it is replaced by a fresh one (no other condition)",
+            "the switch can be skipped although the slot holds this batch (e.g. for an empty batch): the finished batch stays the active one and the next item "
+            "cannot join it", tcfg.fmt_path(p if isinstance(p, list) else pre) if (isinstance(p, list) or pre) else None)
     for w in writes:
         v = w.ast.value
         okn = isinstance(v, ast.Call) and q.call_name(v) == "DebugBatch" and q.src(w.ast.targets[0].slice) == "self.name" and v.args and q.src(v.args[0]) == "self.name"
